@@ -192,6 +192,11 @@ func BuildRoot(w *World, root string, lib *OpLib) {
 		// rebalancing trades earn a bonus) whose rebalance treasury holds only the weight-breaking fee of
 		// one medium swap — less than two rebalancing bonuses
 		prefix = []string{"perp_open_long_t1", "perp_open_short_t2", "llp_open_t1_x3", "swap_in_p1_usdc_atom_L", "swap_in_p2_elys_usdc_L", "gap_1d", "mc_claim_lp1", "commit_eden_lp1", "vest_eden_lp1", "stake_elys_lp1", "create_oracle_pool_imbalanced_lp1", "swap_in_p3_usdc_atom_M"}
+	case "R16":
+		// THIN POOL: R1 plus a huge long (custody ~ 20 % of pool 1's ATOM), after which the founder withdrew as
+		// much liquidity as the guards of the exit hooks let through: free liquidity is short of single
+		// positions' custody (swap estimates of that size fail), health estimators and forced closes meet errors
+		prefix = []string{"perp_open_long_t1", "perp_open_short_t2", "llp_open_t1_x3", "swap_in_p1_usdc_atom_L", "swap_in_p2_elys_usdc_L", "gap_1d", "mc_claim_lp1", "commit_eden_lp1", "vest_eden_lp1", "stake_elys_lp1", "perp_open_long_t3_huge", "gap_61m", "exit_p1_all_assets_largest_accepted_lp1"}
 	case "R15":
 		// an account (t1) whose commitment record holds NOTHING BUT claimed Eden: it joined pool 1, earned a
 		// day of rewards, claimed them and left the pool — the state in which the next conversion or commit
